@@ -48,6 +48,10 @@ def o71(ctx):
         order = inner.args[0]
         ctx.count(1, {"keep_greater": kg, "visit order": tm.show(to_term(order))[:100], "descending": getattr(order, "descending", None)})
         sb = getattr(order, "sorted_by", None)
+        if sb is None and getattr(order, "slice_of", None) is not None and getattr(order.slice_of[0], "sorted_by", None) is not None:
+            # the ranking is cut before it is visited (`order[:-1]`, `order[1:]`): whether the particles left out could have removed anybody
+            # depends on the removal relation (symmetry, ties), which this rule does not decide
+            raise Unsupported("the ranking is cut before it is visited: part of the sorted order is not walked", inner.node)
         want_metric = T("sel", call("col", const("df"), sym("metric_id")), gmask)
         if sb is None or getattr(order, "descending", None) is not kg or not tm.equivalent(to_term(sb), want_metric, seed_tag="metric"):
             ctx.finding(Q1, inner.node, f"with keep_greater={kg} the particles of the group must be visited in "
